@@ -1889,7 +1889,7 @@ class Exec:
         if re.match(r'NonNull::<.*>::dangling', c):
             return R(BlockPtr(Block('dangling', Arr('Zst', s.N))))
         mcast = re.search(r'::cast::<(.*)>$', c)
-        if mcast and isinstance(args[0], (ElemPtr, ArrRef)) and 'GenericArray<' in mcast.group(1):      # same as `ptr as *const GenericArray<..>`
+        if mcast and isinstance(args[0], (ElemPtr, ArrRef)) and 'GenericArray<' in mcast.group(1) and re.search(r'<impl \*(const|mut) (T|MaybeUninit<T>)>::cast::<', c):      # same as `ptr as *const GenericArray<..>`
             p0 = args[0] if isinstance(args[0], ElemPtr) else ElemPtr(args[0].arr, bv(0))
             return R(with_prov(ElemPtr(p0.arr, p0.idx, cast='*const ' + mcast.group(1)), args[0].prov))
         if mcast and isinstance(args[0], ElemPtr) and args[0].cast and re.fullmatch(r'(T|MaybeUninit<T>)', mcast.group(1)):
